@@ -25,10 +25,10 @@ structure Tables where
   uops : List (UOp × Dunder)
   fwd : List (Dunder × Dunder)
   rev : List (Dunder × Dunder)
-  acc : List (NTy × Dunder × NTy)
+  acc : NTy → NTy → List Dunder
   uacc : List (NTy × Dunder)
 
-def tables : Tables := ⟨mixin, checkerOps, checkerUOps, fwdTable, revTable, accTable, uaccTable⟩
+def tables : Tables := ⟨mixin, checkerOps, checkerUOps, fwdTable, revTable, accBy, uaccTable⟩
 
 /-- an operand: a traced (runtime) value or a Python constant, with its (literal) type -/
 inductive Operand where
@@ -50,7 +50,7 @@ structure Sel where
 
 variable (T : Tables)
 
-def accepts (t : NTy) (d : Dunder) (u : NTy) : Bool := T.acc.contains (t, d, u)
+def accepts (t : NTy) (d : Dunder) (u : NTy) : Bool := (T.acc t u).contains d
 
 /-- `_synthesize_binary` -/
 def regular (op : Op) (l r : NTy) : Option Sel :=
@@ -93,6 +93,10 @@ def comptime (op : Op) (l r : Operand) : Option (Option Sel) :=
     | .traced tl, _ => some (wrapped T lop tl r.ty true)
     | .const tl, .traced tr => some (wrapped T rop tr tl false)
     | .const _, .const _ => none
+
+/-- `regular` on operands (a constant is a literal of its type) -/
+def regularO (op : Op) : Operand → Operand → Option Sel
+  | .traced a, .traced b | .traced a, .const b | .const a, .traced b | .const a, .const b => regular T op a b
 
 /-- unary: `visit_UnaryOp` vs the mixin method wrapped by `unary_operation` -/
 def regularU (op : UOp) (t : NTy) : Option Dunder :=
